@@ -34,6 +34,8 @@ EXPLANATION = (
   ' (LOOP-break) no loop over the items of a collection is left by a branch that does nothing but `break` on a test about the item (end-of-input sentinels, flags set in the loop body and searches whose variable is read afterwards excepted): an item that is to be skipped does not end the processing of the items after it;'
   ' (FIN-regex) the white-space collapsing substitution treats exactly SPACE, TAB, CR and LF as linear white space (NBSP, ideographic and em spaces, VT and FF are characters);'
   + common.SHARED_CLAUSES['validators']
+  + " (FIN-lwsp) the white-space step of _process_element (run of text, linear white space, pruning), interpreted on sample paragraphs: runs collapse to one space, white space at the start / after a break and at the end / before a break goes, and a text node left or found empty disappears together with every span it leaves without children;"
+  + " (PRUNE-sites) every `return None` of ISD._process_element is one of the grounds for leaving an element out of a snapshot - inactive at the offset, another region, display=none, the final emptiness rule; any other site, evaluated over every element kind with and without children, drops only what the final rule would drop (never an element with children, never an empty part of a ruby container);"
 )
 RULE_TEXT = "per length-bearing property, per mutator call on ISD-owned values, per return site, per document parameter"
 UNDECIDED = ["white-space collapsing results", "emptiness pruning as semantics (no empty text node, no childless span)",
@@ -453,6 +455,10 @@ def check_text_roots(ctx):
 
 
 def run(ctx):
+  from ..rules import isdrules as _isdr
+  ctx.floor("PRUNE-sites", "`return None` sites of _process_element", _isdr.check_prune_sites(ctx, ctx.ix.func("ttconv.isd:ISD._process_element")), 4)
+  from ..rules import probes as _probes
+  ctx.floor("FIN-lwsp", "sample paragraphs decided", _probes.check_lwsp_block(ctx), 7)
   common.check_shared_helpers(ctx, validators=True)
   ix = ctx.ix
   check_lengths(ctx)
